@@ -3,6 +3,7 @@
 #include <strings.h>
 #include <eav.h>
 #include <eav/private.h>
+#include <eav/verif_hooks.h>
 
 
 typedef struct reserved_s {
@@ -65,10 +66,13 @@ is_special_domain (const char *start, const char *end)
 } while (0)
 
     /* count labels */
-    for (cp = start; (ch = strchr (cp, '.')) != 0; cp = ch + 1, count++);
+    for (cp = start; (ch = strchr (cp, '.')) != 0; cp = ch + 1, count++)
+    EAV_VERIF_LOOP(is_special_domain_count)
+    ;
 
     /* shortcut for non-fqdn */
     if (count == 0) {
+        EAV_VERIF_AT(is_special_domain_nodot)
         len = end - start;
         if (len < 4 || len > 9 || len == 6 || len == 8)
             return (NO);
@@ -83,13 +87,17 @@ is_special_domain (const char *start, const char *end)
     /* we're interested in last two labels only: skip the rest. */
     cp = start;
 
-    while (count >= 2) {
+    while (count >= 2)
+    EAV_VERIF_LOOP(is_special_domain_skip)
+    {
+        EAV_VERIF_STEP(is_special_domain_skip)
         ch = strchr (cp, '.');
         cp = ch + 1;
         count--;
     }
 
     /* first label */
+    EAV_VERIF_AT(is_special_domain_cut)
     ch = strchr (cp, '.');
     len = ch - cp;
 
